@@ -92,7 +92,7 @@ def run_real(repo: str, desc: dict, strace: dict | None = None) -> dict:
                "PYTHONIOENCODING": desc["knobs"].get("stdout_encoding", "utf-8") + ":strict"}
         cmd = [PY312, "-m", "oneliner"] + list(desc["argv"])
         if strace:
-            target = os.path.join(root, strace["path"])
+            target = os.path.normpath(os.path.join(root, strace["path"]))
             cmd = ["strace", "-f", "-o", "/dev/null", "-P", target, "-P", strace["path"], "-e", "trace=" + strace["syscall"],
                    "-e", "inject=%s:error=%s:when=%s" % (strace["syscall"], strace["errno"], strace.get("when", "1"))] + cmd
         try:
@@ -142,8 +142,8 @@ def compare_real(desc: dict, sim: dict, real: dict) -> list:
 
 def real_as_result(desc: dict, real: dict) -> dict:
     """Shape a real run like a simulated result so the same end-state oracles judge it."""
-    initial = {"files": {os.path.join(CWD, p): h for p, h in desc["fs"]["files"].items()}}
-    final = {"files": {os.path.join(CWD, p): b.hex() for p, b in real["files"].items()}}
+    initial = {"files": {os.path.normpath(os.path.join(CWD, p)): h for p, h in desc["fs"]["files"].items()}}
+    final = {"files": {os.path.normpath(os.path.join(CWD, p)): b.hex() for p, b in real["files"].items()}}
     muts = []
     for p in sorted(set(initial["files"]) | set(final["files"])):
         if initial["files"].get(p) != final["files"].get(p):
@@ -238,7 +238,7 @@ def verify_replay(repo: str, doc: dict) -> dict:
     if doc.get("real"):
         real = run_real(repo, doc["desc"])
         res = real_as_result(doc["desc"], real)
-        with fresh_worker(repo, t["exe"], int(t["hashseed"]), int(t.get("pad", 0))) as fl:
+        with fresh_worker(repo, t["exe"], int(t["hashseed"]), int(t.get("pad", 0)), int(t.get("opt", 0))) as fl:
             # judge with the template-side oracle (needs the reference table)
             r = fl.groups[0][0].request({"cmd": "c16_judge", "desc": doc["desc"], "result": res})
         classes = sorted({"%s/%s" % _vc(v) for v in r["violations"]})
